@@ -8,7 +8,12 @@ use crate::pipes::*;
 use crate::tape::{gen_value, Fuel, Tape};
 
 pub struct Msgs {
+    /// the values the receiver must see (after the post-operations)
     pub values: Vec<Value>,
+    /// the values that are emplaced into the send guard
+    pub initial: Vec<Value>,
+    /// shrinking operations applied through the SendGuard before send()
+    pub post_ops: Vec<Vec<(Vec<u16>, crate::glue::Op)>>,
     pub images: Vec<Image>,
     /// absolute start of each message in the stream (+ total length at the end)
     pub starts: Vec<usize>,
@@ -16,9 +21,117 @@ pub struct Msgs {
     pub has_padding: bool,
 }
 
+/// Containers of a value (path, kind, length), in pre-order.
+fn containers(ty: &Ty, v: &Value, path: &mut Vec<u16>, out: &mut Vec<(Vec<u16>, u8, usize)>) {
+    match (ty, v) {
+        (Ty::FlatVec(t, _), Value::Vec(xs)) => {
+            out.push((path.clone(), 0, xs.len()));
+            for (i, x) in xs.iter().enumerate() {
+                path.push(i as u16);
+                containers(t, x, path, out);
+                path.pop();
+            }
+        }
+        (Ty::FlatString(_), Value::Str(s)) => out.push((path.clone(), 1, s.len())),
+        (Ty::FlexVec(t, _), Value::Flex(xs)) => {
+            out.push((path.clone(), 2, xs.len()));
+            for (i, x) in xs.iter().enumerate() {
+                path.push(i as u16);
+                containers(t, x, path, out);
+                path.pop();
+            }
+        }
+        (Ty::Struct(s), Value::Struct(fs)) => {
+            for (i, (t, x)) in s.fields.iter().zip(fs).enumerate() {
+                path.push(i as u16);
+                containers(t, x, path, out);
+                path.pop();
+            }
+        }
+        (Ty::Enum(e), Value::Enum(k, fs)) => {
+            for (i, (t, x)) in e.variants[*k].fields.iter().zip(fs).enumerate() {
+                path.push(i as u16);
+                containers(t, x, path, out);
+                path.pop();
+            }
+        }
+        (Ty::Array(t, _), Value::Array(xs)) => {
+            for (i, x) in xs.iter().enumerate() {
+                path.push(i as u16);
+                containers(t, x, path, out);
+                path.pop();
+            }
+        }
+        _ => {}
+    }
+}
+
+/// 0..2 shrinking operations (pop / truncate / clear) on containers of `v`; returns the ops and the final value.
+fn gen_shrink_ops(ty: &Ty, v: &Value, t: &mut Tape) -> (Vec<(Vec<u16>, crate::glue::Op)>, Value) {
+    use crate::glue::Op;
+    let mut cur = v.clone();
+    let mut ops = vec![];
+    let n = t.below(3);
+    for _ in 0..n {
+        let mut cs = vec![];
+        containers(ty, &cur, &mut vec![], &mut cs);
+        cs.retain(|c| c.2 > 0);
+        if cs.is_empty() {
+            break;
+        }
+        // prefer FlexVecs (their chain changes shape)
+        let flexes: Vec<_> = cs.iter().filter(|c| c.1 == 2).cloned().collect();
+        let pool = if !flexes.is_empty() && t.chance(3, 4) { flexes } else { cs };
+        let (path, kind, len) = pool[t.below(pool.len())].clone();
+        let node = super::history::resolve_mut(&mut cur, &path);
+        let op = match (kind, t.below(3)) {
+            (0, 0) => {
+                node.items_mut().pop();
+                Op::VPop
+            }
+            (0, 1) => {
+                let k = t.below(len);
+                node.items_mut().truncate(k);
+                Op::VTruncate(k)
+            }
+            (0, _) => {
+                node.items_mut().clear();
+                Op::VClear
+            }
+            (1, _) => {
+                *node = Value::Str(String::new());
+                Op::SClear
+            }
+            (_, 0) => {
+                node.items_mut().pop();
+                Op::FPop
+            }
+            (_, 1) => {
+                let k = t.below(len);
+                node.items_mut().truncate(k);
+                Op::FTruncate(k)
+            }
+            (_, _) => {
+                node.items_mut().clear();
+                Op::FClear
+            }
+        };
+        ops.push((path, op));
+    }
+    (ops, cur)
+}
+
 /// Generate a sequence of 0..max messages of the shape (each at most `limit` bytes).
 pub fn gen_msgs(ty: &Ty, t: &mut Tape, max: usize, limit: usize) -> Msgs {
+    gen_msgs_ext(ty, t, max, limit, false)
+}
+
+/// With `shrink`, some messages are modified through the send guard (pop / truncate / clear) before
+/// they are sent, which produces non-canonical images (0-terminated FlexVec chains, stale bytes).
+pub fn gen_msgs_ext(ty: &Ty, t: &mut Tape, max: usize, limit: usize, shrink: bool) -> Msgs {
     let n = t.below(max + 1);
+    let mut initial = vec![];
+    let mut post_ops = vec![];
     let mut values = vec![];
     let mut images = vec![];
     let mut starts = vec![0];
@@ -31,16 +144,26 @@ pub fn gen_msgs(ty: &Ty, t: &mut Tape, max: usize, limit: usize) -> Msgs {
         if size > limit {
             continue;
         }
-        let Ok(img) = model::encode(ty, &v, size, 0, &mut Canonical) else { continue };
-        if model::extent(ty, &v) % model::align(ty) != 0 {
+        if model::encode(ty, &v, size, 0, &mut Canonical).is_err() {
+            continue;
+        }
+        let (ops, fin) = if shrink && t.chance(1, 3) { gen_shrink_ops(ty, &v, t) } else { (vec![], v.clone()) };
+        // provisional framing from the canonical size of the final value (exact when there are no post-ops)
+        let fsize = if ops.is_empty() { size } else { model::size_of(ty, &fin) };
+        let Ok(img) = model::encode(ty, &fin, fsize, 0, &mut Canonical) else { continue };
+        if model::extent(ty, &fin) % model::align(ty) != 0 {
             has_padding = true;
         }
         largest = largest.max(size);
-        starts.push(starts.last().unwrap() + size);
-        values.push(v);
+        starts.push(starts.last().unwrap() + fsize);
+        initial.push(v);
+        post_ops.push(ops);
+        values.push(fin);
         images.push(img);
     }
     Msgs {
+        initial,
+        post_ops,
         values,
         images,
         starts,
@@ -77,6 +200,50 @@ impl Msgs {
             }
         }
         Ok(())
+    }
+    /// Frame the sink contents with the reference decoder: message i must decode to `values[i]`; for
+    /// messages without post-operations the content-defined bytes must also equal the canonical
+    /// encoding. Returns the real message boundaries.
+    pub fn frame_stream(&self, ty: &Ty, data: &[u8], upto: usize) -> Result<Vec<usize>, String> {
+        let a = model::align(ty);
+        let mut starts = vec![0usize];
+        let mut cur = 0usize;
+        for i in 0..upto {
+            let d = model::decode(ty, &data[cur..], 0).map_err(|r| {
+                format!("the sink contents at byte {} are not a well-formed message #{} ({:?} at [{}, {}))", cur, i, r.kind, r.lo, r.hi)
+            })?;
+            if d.value != self.values[i] {
+                return Err(format!("message #{} in the sink decodes to {} but {} was sent", i, d.value.show(), self.values[i].show()));
+            }
+            let size = if ty.is_sized() { model::size(ty) } else { model::round_up(d.extent, a).max(model::min_size(ty)) };
+            if self.post_ops[i].is_empty() {
+                let img = &self.images[i];
+                if size != img.bytes.len() {
+                    return Err(format!("message #{} occupies {} bytes in the sink, its encoding has {}", i, size, img.bytes.len()));
+                }
+                for k in 0..size {
+                    if img.mask[k] && data[cur + k] != img.bytes[k] {
+                        return Err(format!("byte {} of message #{} = {} is {:#04x}, encoding has {:#04x}", k, i, self.values[i].show(), data[cur + k], img.bytes[k]));
+                    }
+                }
+            }
+            cur += size;
+            if cur > data.len() {
+                return Err(format!("message #{} extends to byte {} but the sink holds {}", i, cur, data.len()));
+            }
+            starts.push(cur);
+        }
+        if cur != data.len() {
+            return Err(format!("the sink holds {} bytes but the {} sent messages occupy {}", data.len(), upto, cur));
+        }
+        Ok(starts)
+    }
+    /// Install the post-operations for the send drivers of this thread.
+    pub fn install_post_ops(&self) {
+        crate::io_glue::POST_OPS.with(|p| *p.borrow_mut() = self.post_ops.clone());
+    }
+    pub fn clear_post_ops() {
+        crate::io_glue::POST_OPS.with(|p| p.borrow_mut().clear());
     }
     /// A clean byte stream of the messages (padding zero).
     pub fn stream(&self) -> Vec<u8> {
